@@ -13,5 +13,5 @@ trap 'rm -rf "$T"' EXIT
 (cd h && go build -tags verif -overlay "$T/overlay.json" -o ../bin/vcheck-i ./cmd/vcheck)
 (cd h && CGO_ENABLED=1 go build -race -o ../bin/racepass ./cmd/racepass)
 # self-tests of the machinery itself (PEG interpreter vs peg's own rendering, defects replay)
-(cd h && go test ./pegi ./defects >bin/../../bin/selftest.log 2>&1) || { cat bin/selftest.log; echo "setup: self-test failed"; exit 1; }
+(cd h && go test ./pegi ./defects >../bin/selftest.log 2>&1) || { cat bin/selftest.log; echo "setup: self-test failed"; exit 1; }
 echo "setup ok: $(./bin/vcheck-i list | tr '\n' ' ')"
